@@ -1227,3 +1227,311 @@ Proof.
   unfold wire_ok in W. destruct (cut c_qm (o_wire c)) as [[wp wq] f'].
   rewrite V in W. destruct W as [W1 W2]. subst. eauto.
 Qed.
+
+(* ------------------------------------------------------------------------------------ *)
+(* 8. no new delimiter: what escape can emit, for ALL byte strings *)
+
+Lemma valid_encoded_app m a b : valid_encoded m (a ++ b) = valid_encoded m a && valid_encoded m b.
+Proof.
+  induction a as [|c r IH]; simpl; [reflexivity|]. rewrite IH, andb_assoc. reflexivity.
+Qed.
+
+Lemma esc_byte_path_valid a : valid_encoded MPath (esc_byte MPath a) = true.
+Proof. destruct a as [[] [] [] [] [] [] [] []]; reflexivity. Qed.
+
+Lemma esc_byte_fragment_valid a : valid_encoded MFragment (esc_byte MFragment a) = true.
+Proof. destruct a as [[] [] [] [] [] [] [] []]; reflexivity. Qed.
+
+(* the default escaping is always a valid encoding (EscapedPath never has to re-escape it) *)
+Lemma escape_valid_path s : valid_encoded MPath (escape MPath s) = true.
+Proof.
+  induction s as [|c r IH]; simpl; [reflexivity|].
+  rewrite valid_encoded_app, esc_byte_path_valid, IH. reflexivity.
+Qed.
+
+Lemma escape_valid_fragment s : valid_encoded MFragment (escape MFragment s) = true.
+Proof.
+  induction s as [|c r IH]; simpl; [reflexivity|].
+  rewrite valid_encoded_app, esc_byte_fragment_valid, IH. reflexivity.
+Qed.
+
+(* delimiters of the enclosing syntax never come out of escape *)
+Definition delimiter_free (m : mode) (s : string) : Prop :=
+  has_ctl s = false /\ has_byte c_sp s = false /\ has_byte c_hash s = false /\
+  match m with
+  | MPath => has_byte c_qm s = false
+  | MQuery => has_byte c_qm s = false /\ has_byte c_amp s = false /\ has_byte c_eq s = false /\
+              has_byte c_semi s = false /\ has_byte c_slash s = false
+  | MFragment => True
+  end.
+
+Lemma esc_byte_delimiter_free m a : delimiter_free m (esc_byte m a).
+Proof.
+  destruct m; destruct a as [[] [] [] [] [] [] [] []]; unfold delimiter_free; simpl; repeat split; reflexivity.
+Qed.
+
+Lemma delimiter_free_app m a b : delimiter_free m a -> delimiter_free m b -> delimiter_free m (a ++ b).
+Proof.
+  unfold delimiter_free. intros [A1 [A2 [A3 A4]]] [B1 [B2 [B3 B4]]].
+  rewrite has_ctl_app, !has_byte_app, A1, A2, A3, B1, B2, B3. repeat split; try reflexivity.
+  destruct m.
+  - try rewrite has_byte_app. rewrite A4, B4. reflexivity.
+  - destruct A4 as [A4 [A5 [A6 [A7 A8]]]]. destruct B4 as [B4 [B5 [B6 [B7 B8]]]].
+    try rewrite !has_byte_app. rewrite A4, A5, A6, A7, A8, B4, B5, B6, B7, B8. repeat split; reflexivity.
+  - exact I.
+Qed.
+
+Lemma escape_delimiter_free m s : delimiter_free m (escape m s).
+Proof.
+  induction s as [|c r IH]; simpl.
+  - unfold delimiter_free. destruct m; repeat split; reflexivity.
+  - apply delimiter_free_app; [apply esc_byte_delimiter_free|exact IH].
+Qed.
+
+(* escaping changes a string only by introducing '%' (path mode): an encoded parameter that is
+   encoded once more and decoded once by the router still contains '%', hence is rejected *)
+Lemma esc_byte_path_id_or_pct a :
+  esc_byte MPath a = String a EmptyString \/ has_byte c_pct (esc_byte MPath a) = true.
+Proof. destruct a as [[] [] [] [] [] [] [] []]; (left; reflexivity) || (right; reflexivity). Qed.
+
+Lemma escape_path_no_pct_id s : has_byte c_pct (escape MPath s) = false -> escape MPath s = s.
+Proof.
+  induction s as [|c r IH]; simpl; [reflexivity|].
+  rewrite has_byte_app. intros H. apply orb_false_iff in H. destruct H as [H1 H2].
+  destruct (esc_byte_path_id_or_pct c) as [E|E]; [|congruence].
+  rewrite E. simpl. rewrite (IH H2). reflexivity.
+Qed.
+
+Lemma double_encoding_rejected v : escape MPath v <> v -> param_ok (escape MPath v) = false.
+Proof.
+  intros H. apply checker_rejects. left.
+  destruct (has_byte c_pct (escape MPath v)) eqn:E; [reflexivity|].
+  exfalso. apply H. apply escape_path_no_pct_id. exact E.
+Qed.
+
+(* unescape is compositional: a prefix that decodes, decodes the same way in front of anything *)
+Lemma unescape_app m : forall n a a' b, (String.length a <= n)%nat ->
+  unescape m a = Some a' ->
+  unescape m (a ++ b) = option_map (fun t => (a' ++ t)%string) (unescape m b).
+Proof.
+  induction n as [|n IH]; intros a a' b Hn U.
+  - destruct a; simpl in Hn; [|lia]. simpl in U. inversion U; subst. simpl.
+    destruct (unescape m b); reflexivity.
+  - destruct a as [|c r].
+    + simpl in U. inversion U; subst. simpl. destruct (unescape m b); reflexivity.
+    + simpl in U. simpl. destruct (code c =? c_pct) eqn:E.
+      * destruct r as [|x [|y r']]; try discriminate. simpl.
+        destruct (unhex x); try discriminate. destruct (unhex y); try discriminate.
+        destruct (unescape m r') as [t|] eqn:U'; try discriminate. inversion U; subst.
+        simpl in Hn. rewrite (IH r' t b ltac:(lia) U').
+        destruct (unescape m b); reflexivity.
+      * destruct (unescape m r) as [t|] eqn:U'; try discriminate. inversion U; subst.
+        simpl in Hn. rewrite (IH r t b ltac:(lia) U').
+        destruct (unescape m b); reflexivity.
+Qed.
+
+Lemma unescape_app' m a a' b : unescape m a = Some a' ->
+  unescape m (a ++ b) = option_map (fun t => (a' ++ t)%string) (unescape m b).
+Proof. apply (unescape_app m (String.length a)). apply le_n. Qed.
+
+(* ------------------------------------------------------------------------------------ *)
+(* 9. NewHTTPProxyDetailed re-parses URL.String(): identity on what the executor sees *)
+
+Lemma last_byte_cons c r : r <> EmptyString -> last_byte (String c r) = last_byte r.
+Proof. destruct r; [congruence|reflexivity]. Qed.
+
+Lemma sapp_nonempty_r (a b : string) : b <> EmptyString -> (a ++ b)%string <> EmptyString.
+Proof. destruct a; simpl; [auto|discriminate]. Qed.
+
+Lemma last_byte_app a b : b <> EmptyString -> last_byte (a ++ b) = last_byte b.
+Proof.
+  intros H. induction a as [|c r IH]; [reflexivity|].
+  change ((String c r ++ b)%string) with (String c (r ++ b)).
+  rewrite last_byte_cons; [exact IH|apply sapp_nonempty_r; exact H].
+Qed.
+
+Lemma drop_last_cons c r : r <> EmptyString -> drop_last (String c r) = String c (drop_last r).
+Proof. destruct r; [congruence|reflexivity]. Qed.
+
+Lemma drop_last_snoc a c : drop_last (a ++ String c EmptyString) = a.
+Proof.
+  induction a as [|x r IH]; [reflexivity|].
+  change ((String x r ++ String c "")%string) with (String x (r ++ String c "")).
+  rewrite drop_last_cons; [rewrite IH; reflexivity|apply sapp_nonempty_r; discriminate].
+Qed.
+
+Lemma query_split_none ep : has_byte c_qm ep = false -> query_split ep = (ep, EmptyString, false).
+Proof.
+  intros H. unfold query_split. rewrite (has_count _ _ H). simpl Nat.eqb. rewrite andb_false_r.
+  rewrite (cut_absent _ _ H). reflexivity.
+Qed.
+
+Lemma query_split_some ep rq : has_byte c_qm ep = false ->
+  query_split (ep ++ String (chr c_qm) rq) = (ep, rq, str_eqb rq "").
+Proof.
+  intros H. unfold query_split. rewrite count_byte_app, (has_count _ _ H).
+  destruct rq as [|x r].
+  - rewrite last_byte_app by discriminate. simpl. rewrite drop_last_snoc. reflexivity.
+  - rewrite last_byte_app by discriminate.
+    rewrite (last_byte_cons (chr c_qm) (String x r)) by discriminate.
+    assert (F : (match last_byte (String x r) with Some n => n =? c_qm | None => false end
+                 && Nat.eqb (0 + count_byte c_qm (String (chr c_qm) (String x r))) 1) = false).
+    { change (count_byte c_qm (String (chr c_qm) (String x r))) with (S (count_byte c_qm (String x r))).
+      destruct (count_byte c_qm (String x r)) eqn:Cn.
+      - destruct (last_byte (String x r)) as [n|] eqn:L; [|reflexivity].
+        destruct (n =? c_qm) eqn:En; [|reflexivity].
+        apply N.eqb_eq in En. subst n. apply last_byte_count in L. lia.
+      - simpl. apply andb_false_r. }
+    rewrite F. rewrite (cut_found c_qm (chr c_qm) ep (String x r) eq_refl H). reflexivity.
+Qed.
+
+Lemma enc_pair_clean kv : has_ctl (enc_pair kv) = false /\ has_byte c_hash (enc_pair kv) = false.
+Proof.
+  unfold enc_pair, query_escape.
+  destruct (escape_delimiter_free MQuery (fst kv)) as [A1 [_ [A3 _]]].
+  destruct (escape_delimiter_free MQuery (snd kv)) as [B1 [_ [B3 _]]].
+  rewrite has_ctl_app, has_byte_app. simpl. rewrite A1, A3, B1, B3. split; reflexivity.
+Qed.
+
+Lemma join_amp_clean l :
+  has_ctl (join_amp (map enc_pair l)) = false /\ has_byte c_hash (join_amp (map enc_pair l)) = false.
+Proof.
+  induction l as [|x r [I1 I2]]; [split; reflexivity|].
+  destruct (enc_pair_clean x) as [E1 E2].
+  destruct r as [|y r']; [simpl; auto|].
+  change (join_amp (map enc_pair (x :: y :: r')))
+    with (enc_pair x ++ String (chr c_amp) (join_amp (map enc_pair (y :: r'))))%string.
+  rewrite has_ctl_app, has_byte_app. simpl. simpl in I1, I2. rewrite E1, E2, I1, I2. split; reflexivity.
+Qed.
+
+Lemma values_encode_clean q :
+  has_ctl (values_encode q) = false /\ has_byte c_hash (values_encode q) = false.
+Proof. unfold values_encode. apply join_amp_clean. Qed.
+
+Lemma slash_app p x : starts_with_slash p = true -> starts_with_slash (p ++ x) = true.
+Proof. destruct p; [discriminate|]. simpl. auto. Qed.
+
+Lemma escape_slash dp : starts_with_slash dp = true -> starts_with_slash (escape MPath dp) = true.
+Proof.
+  destruct dp as [|c r]; [discriminate|]. simpl. intros H. apply N.eqb_eq in H.
+  assert (E : esc_byte MPath c = String c EmptyString).
+  { unfold esc_byte, should_escape. rewrite H. reflexivity. }
+  rewrite E. simpl. rewrite H. reflexivity.
+Qed.
+
+(* the facts about the parts of a successfully parsed '#'-free path *)
+Lemma cut_parts_clean path p rq f :
+  cut c_qm path = (p, rq, f) -> has_ctl path = false -> has_byte c_hash path = false ->
+  starts_with_slash path = true ->
+  has_ctl p = false /\ has_ctl rq = false /\ has_byte c_hash p = false /\ has_byte c_hash rq = false /\
+  has_byte c_qm p = false /\ starts_with_slash p = true.
+Proof.
+  intros C Hc Hh Hs. destruct f.
+  - destruct (cut_rebuild _ _ _ _ C) as [c [Hcc [E Ha]]]. subst path.
+    rewrite has_ctl_app in Hc. rewrite has_byte_app in Hh. simpl in Hc, Hh.
+    apply orb_false_iff in Hc. destruct Hc as [Hc1 Hc2].
+    apply orb_false_iff in Hc2. destruct Hc2 as [_ Hc2].
+    apply orb_false_iff in Hh. destruct Hh as [Hh1 Hh2].
+    apply orb_false_iff in Hh2. destruct Hh2 as [_ Hh2].
+    repeat split; try assumption.
+    destruct p as [|x r]; [|exact Hs]. simpl in Hs. rewrite Hcc in Hs. discriminate.
+  - destruct (cut_false _ _ _ _ C) as [E1 [E2 E3]]. subst p rq. repeat split; auto.
+Qed.
+
+Lemma reparse_identity h path q :
+  has_byte c_hash path = false -> assemble_glue h path q = assemble h path q.
+Proof.
+  intros Hf. unfold assemble_glue, assemble, url_parse at 1 3.
+  destruct (wf_host h) eqn:Hw; [|reflexivity].
+  destruct (starts_with_slash path) eqn:Hsl; [|reflexivity]. simpl negb. simpl orb. cbv iota.
+  rewrite (cut_absent _ _ Hf).
+  destruct (has_ctl path) eqn:Hc; [reflexivity|].
+  change (if match last_byte path with Some n => n =? c_qm | None => false end
+             && Nat.eqb (count_byte c_qm path) 1
+          then (drop_last path, EmptyString, true)
+          else let '(a, b, _) := cut c_qm path in (a, b, false)) with (query_split path).
+  destruct (query_split path) as [[p rq] force] eqn:Q.
+  destruct (query_split_cut _ _ _ _ Q) as [f' C].
+  destruct (cut_parts_clean _ _ _ _ C Hc Hf Hsl) as [Pc [Rc [Ph [Rh [Pq Ps]]]]].
+  destruct (unescape MPath p) as [dp|] eqn:U; [|reflexivity].
+  simpl (unescape MFragment EmptyString). cbv iota.
+  set (u0 := {| u_host := h; u_path := dp; u_rawp := p; u_force := force; u_rawquery := rq;
+                u_frag := EmptyString; u_rawf := EmptyString |}).
+  assert (Eu : exists rq', append_query u0 q =
+                 {| u_host := h; u_path := dp; u_rawp := p; u_force := force; u_rawquery := rq';
+                    u_frag := EmptyString; u_rawf := EmptyString |} /\
+               has_ctl rq' = false /\ has_byte c_hash rq' = false).
+  { destruct (values_encode_clean q) as [V1 V2]. destruct q as [|kv q'].
+    - exists rq. auto.
+    - simpl. destruct (str_eqb rq ""); eexists; (split; [reflexivity|]).
+      + auto.
+      + rewrite has_ctl_app, has_byte_app. simpl. rewrite Rc, Rh, V1, V2. auto. }
+  destruct Eu as [rq' [Eu [Rc' Rh']]]. rewrite Eu. clear Eu.
+  set (u := {| u_host := h; u_path := dp; u_rawp := p; u_force := force; u_rawquery := rq';
+               u_frag := EmptyString; u_rawf := EmptyString |}).
+  assert (Ep : escaped_path u = if valid_encoded MPath p then p else escape MPath dp)
+    by (apply (escaped_path_cases u p eq_refl U Ps)).
+  set (ep := if valid_encoded MPath p then p else escape MPath dp) in *.
+  pose proof (unescape_slash _ _ _ Ps U) as Ds.
+  assert (F1 : starts_with_slash ep = true).
+  { unfold ep. destruct (valid_encoded MPath p); [exact Ps|apply escape_slash; exact Ds]. }
+  assert (F4 : has_byte c_qm ep = false).
+  { unfold ep. destruct (valid_encoded MPath p); [exact Pq|apply escape_path_no_qm]. }
+  assert (F23 : has_ctl ep = false /\ has_byte c_hash ep = false).
+  { unfold ep. destruct (valid_encoded MPath p); [auto|].
+    destruct (escape_delimiter_free MPath dp) as [D1 [_ [D3 _]]]. auto. }
+  destruct F23 as [F2 F3].
+  assert (F6 : unescape MPath ep = Some dp).
+  { unfold ep. destruct (valid_encoded MPath p); [exact U|apply escape_roundtrip]. }
+  assert (F7 : valid_encoded MPath ep = true).
+  { unfold ep. destruct (valid_encoded MPath p) eqn:V; [exact V|apply escape_valid_path]. }
+  unfold url_rest, observe. simpl u_frag. simpl u_host. simpl str_eqb. cbv iota.
+  rewrite sapp_nil_r. rewrite Ep.
+  (* the serialised query suffix and its re-parse *)
+  assert (S : exists force', query_split (ep ++ query_suffix u) = (ep, rq', force') /\
+                (if force' || negb (str_eqb rq' "") then String (chr c_qm) rq' else EmptyString)
+                = query_suffix u /\
+              has_ctl (ep ++ query_suffix u) = false /\ has_byte c_hash (ep ++ query_suffix u) = false).
+  { unfold query_suffix. simpl u_force. simpl u_rawquery.
+    destruct (force || negb (str_eqb rq' "")) eqn:Fq.
+    - exists (str_eqb rq' ""). split; [apply query_split_some; exact F4|].
+      split; [destruct (str_eqb rq' ""); reflexivity|].
+      rewrite has_ctl_app, has_byte_app. simpl. rewrite F2, F3, Rc', Rh'. auto.
+    - apply orb_false_iff in Fq. destruct Fq as [_ Fq]. apply negb_false_iff in Fq.
+      apply str_eqb_eq in Fq. subst rq'. exists false. rewrite sapp_nil_r.
+      split; [apply query_split_none; exact F4|]. auto. }
+  destruct S as [force' [S1 [S2 [S3 S4]]]].
+  unfold url_parse. rewrite Hw. rewrite (slash_app _ _ F1). simpl negb. simpl orb. cbv iota.
+  rewrite (cut_absent _ _ S4). rewrite S3.
+  change (if match last_byte (ep ++ query_suffix u) with Some n => n =? c_qm | None => false end
+             && Nat.eqb (count_byte c_qm (ep ++ query_suffix u)) 1
+          then (drop_last (ep ++ query_suffix u), EmptyString, true)
+          else let '(a, b, _) := cut c_qm (ep ++ query_suffix u) in (a, b, false))
+    with (query_split (ep ++ query_suffix u)).
+  rewrite S1. rewrite F6. simpl (unescape MFragment EmptyString). cbv iota.
+  set (u' := {| u_host := h; u_path := dp; u_rawp := ep; u_force := force'; u_rawquery := rq';
+                u_frag := EmptyString; u_rawf := EmptyString |}).
+  assert (Ep' : escaped_path u' = if valid_encoded MPath ep then ep else escape MPath dp)
+    by (apply (escaped_path_cases u' ep eq_refl F6 F1)).
+  rewrite F7 in Ep'.
+  rewrite Ep'. unfold query_suffix at 1. simpl u_force. simpl u_rawquery. rewrite S2.
+  reflexivity.
+Qed.
+
+(* the theorems about the URL transfer to the model with the explicit re-parse *)
+Lemma glue_meets_oracle hosts h path q :
+  In h hosts -> nodup_keys q = true ->
+  asm_spec_b hosts path q (assemble_glue h path q) = true.
+Proof.
+  intros Hh Hn. destruct (has_byte c_hash path) eqn:Hf.
+  - unfold asm_spec_b. rewrite Hf. reflexivity.
+  - rewrite (reparse_identity h path q Hf). apply assemble_meets_oracle; assumption.
+Qed.
+
+Lemma glue_url_ok hosts h path q c :
+  In h hosts -> nodup_keys q = true -> has_byte c_hash path = false ->
+  assemble_glue h path q = Some c -> url_ok hosts path q c.
+Proof.
+  intros Hh Hn Hf A. rewrite (reparse_identity h path q Hf) in A.
+  apply (assemble_url_ok hosts h path q c Hh Hn Hf A).
+Qed.
